@@ -49,7 +49,7 @@ Theorem commented_dicts_exponential : forall n m,
 Proof.
   induction n as [|n IH]; intros m.
   - cbn. lia.
-  - cbn [nestc]. cbn [pretty_pv map truthy].
+  - cbn [nestc]. cbn [pretty_pv map truthy joinc].
     change (with_strategy (nested_call (cx m)) MIndented) with (cx MIndented).
     change (with_strategy (nested_call (cx m)) MPlain) with (cx MPlain).
     rewrite !nestc_commented.
